@@ -271,7 +271,7 @@ class LibRDEngine(RDEngineBase) :
                 )
 
         if   res == 1 :
-            raise Exception("Invalid option argument : \""+engine.get_option()+"\".")
+            raise Exception("Invalid option argument : \""+self.option+"\".")
         elif res == 2 :
             raise Exception("Invalid boundary conditions.")
             
@@ -358,7 +358,7 @@ class LibRDEngine(RDEngineBase) :
                 )
 
         if   res == 1 :
-            raise Exception("Invalid option argument : \""+engine.get_option()+"\".")
+            raise Exception("Invalid option argument : \""+self.option+"\".")
         elif res == 2 :
             raise Exception("Invalid boundary conditions.")
             
